@@ -161,10 +161,16 @@ def make_mw(spec, inplace):
     if n == "SortFieldsAlpha":
         return M.SortFieldsAlphabeticallyMiddleware(**a)
     if n == "SortFieldsCustom":
-        return M.SortFieldsCustomMiddleware(order=tuple(FIELD_ORDERS[spec[1]]), case_sensitive=spec[2], **a)
+        # the caller's configuration objects may be MUTABLE (a list for `order`): for half of the configurations a list is
+        # handed in (seeding round 11: with case_sensitive=True the middleware kept the caller's list and put it, uncopied,
+        # into every entry's metadata - input and result of a second application then share it)
+        order = FIELD_ORDERS[spec[1]]
+        order = list(order) if (spec[1] + int(bool(spec[2]))) % 2 == 1 else tuple(order)
+        return M.SortFieldsCustomMiddleware(order=order, case_sensitive=spec[2], **a)
     if n == "SortBlocks":
         # no allow_inplace_modification parameter: "the block sorter always"
-        return M.SortBlocksByTypeAndKeyMiddleware(block_type_order=tuple(getattr(model, c) for c in BLOCK_ORDERS[spec[1]]),
+        bto = [getattr(model, c) for c in BLOCK_ORDERS[spec[1]]]
+        return M.SortBlocksByTypeAndKeyMiddleware(block_type_order=bto if spec[1] % 2 == 1 else tuple(bto),
                                                   preserve_comments_on_top=spec[2])
     if n == "SeparateCoAuthors":
         return M.SeparateCoAuthors(name_fields=NAME_FIELDS[spec[1]], **a)
